@@ -27,7 +27,8 @@ RULE = (
     "lists recomputed with the C05 oracle; clusters involving a template whose list is ambiguous "
     "within tolerance are skipped and counted); get_cluster_mean_waveforms(c) for both unwhiten "
     "values; un-curated: empty map, no empty ids, cluster waveforms are the template array, "
-    "n_clusters == n_templates. Non-trivial: a merge of >=2 templates with unequal counts, or an "
+    "n_clusters == n_templates. One hand-made dataset has 300 templates with uint16 ids and merges "
+    "of high template ids (thorough: also 257 and 700 templates). Non-trivial: a merge of >=2 templates with unequal counts, or an "
     "emptied id, or a count tie, or (un-curated) the highest template id unused.")
 ASSUMPTIONS = ['float tolerance rtol 1e-5 for weighted means']
 
@@ -41,9 +42,19 @@ def _case(draw):
     return {'spec': spec, 'ncc': draw(st.integers(2, 12))}
 
 
+def _large_cases(th):
+    yield {'spec': D.large_curated_spec(), 'ncc': 3, 'large': True}
+    if th:
+        yield {'spec': D.large_curated_spec(nt=257, ns=1200, seed=11), 'ncc': 12, 'large': True}
+        yield {'spec': D.large_curated_spec(nt=700, ns=2500, seed=12), 'ncc': 2, 'large': True}
+
+
 def drivers(tier):
     th = tier == 'thorough'
-    return [dict(kind='hyp', name='curated', strategy=_case(), examples=120000 if th else 10000)]
+    return [dict(kind='hyp', name='curated', strategy=_case(), examples=120000 if th else 10000),
+            dict(kind='enum', name='large', exhaustive=False, bound='300 (thorough: also 257, 700) '
+                 'templates with uint16 ids, merges involving high ids',
+                 cases=lambda: _large_cases(th))]
 
 
 def load_with_ncc(T, ncc):
@@ -180,7 +191,8 @@ def check(case):
 
 def classify(case, info):
     s = case['spec']
-    labels = ['curated' if s['curation'] else 'un-curated', 'ncc:%s' % ('<=4' if case['ncc'] <= 4
+    labels = (['large:%d-templates-uint16' % s['nt']] if case.get('large') else []) + [
+        'curated' if s['curation'] else 'un-curated', 'ncc:%s' % ('<=4' if case['ncc'] <= 4
                                                                          else '>4')]
     nt = False
     for k, lab in (('merge_unequal', 'merge-unequal-counts'), ('emptied', 'emptied-id'),
